@@ -606,9 +606,50 @@ def op_genome(ctx, source):
             I = Interval.from_entry_tuples([(ctx.names[i], a, b) for (i, a, b) in ivs])
             f3, _ = _judge_intervals(ctx, source, 'genome', 'batch', spec, ivs, lambda: gs[g.get_intervals(I)])
             fails += f3
+        fails += _genome_history(ctx, source, g)
     finally:
         _close(getattr(gs, '_fasta', None))
     return fails, 'genome:%s%s' % ('ok' if not fails else 'differs', ':lenb-ambiguous' if amb else '')
+
+
+_TWIN = str.maketrans('ACGTacgt', 'CGTAcgta')
+
+
+def _genome_history(ctx, source, g):
+    """History on ONE Genome object: read_sequence() was called above; now read_sequence(twin.fa) where twin.fa has the
+    same names, lengths and line layout but other bases (A->C->G->T->A), then read_sequence() again: every call returns
+    the bases of the file it was asked for."""
+    fails = []
+    records2 = [(h, seq.translate(_TWIN), w) for h, seq, w in ctx.records]
+    data2, rows2, seqs2 = fai.build(records2, ctx.fn)
+    ctx._count += 1
+    p2 = os.path.join(ctx.root, 'twin%d.fa' % ctx._count)
+    with open(p2, 'wb') as f:
+        f.write(data2)
+    if source == 'supplied':
+        with open(p2 + '.fai', 'w') as f:
+            f.write(fai.fai_text(rows2))
+    for step, (arg, seqs) in enumerate((((p2,), seqs2), ((), ctx.seqs))):
+        ctx.calls += 1
+        gs = None
+        try:
+            gs = g.read_sequence(*arg)
+            for i, name in enumerate(ctx.names):
+                ctx.calls += 1
+                text = ''.join(_ragged_text(gs[name])).upper()
+                if text != seqs[name].upper():
+                    fails.append(_fail('genome-asked-for-another-fasta', dict(_contig_features(ctx, source, i, 'Genome'),
+                                       call='read_sequence(other file)' if arg else 'read_sequence() again'),
+                                       seqs[name].upper(), text))
+                    break
+        except observe.ObserverError:
+            raise
+        except Exception as e:
+            fails.append(_fail('genome-asked-for-another-fasta', {'index': source, 'call': 'read_sequence(other file)' if arg
+                               else 'read_sequence() again', 'raises': True}, 'a GenomicSequence of the requested file', _raised(e), e))
+        finally:
+            _close(getattr(gs, '_fasta', None))
+    return fails
 
 
 def exec_op(ctx, op):
